@@ -108,3 +108,12 @@ From Yarl Require Import Model.Parse Generated.NetlocGen Proofs.GenSplitProofs.
 Theorem C17_source_split_netloc : forall n : str, gen_split_netloc n = split_netloc n.
 Proof. exact gen_split_netloc_ok. Qed.
 Print Assumptions C17_source_split_netloc.
+
+(** ... and build_pre_encoded_url, where build(encoded=True) drops the default port of the scheme *)
+From Yarl Require Import Model.Url Model.GenTypes Generated.UrlGen Proofs.GenBuildPreProofs.
+Theorem C17_source_build_pre_encoded_url :
+  forall (B : backend) (scheme authority : str) (user password : option str) (host : str) (port : option N) (path qs fragment : str),
+  same_outcome (gen_build_pre_encoded_url B scheme authority user password host port path qs fragment)
+               (Ok (build_pre_encoded B scheme authority user password host port path qs fragment)).
+Proof. exact gen_build_pre_encoded_url_ok. Qed.
+Print Assumptions C17_source_build_pre_encoded_url.
